@@ -164,7 +164,7 @@ def checkReg (toks : List String) : String :=
       let cfg : Cfg := { persistent := p == "1", blocking := b == "1" }
       let r := Conf.runTrace csys 20000 { st := init cfg, names := [], uuids := [], pendTd := [] } tr
       match r.rejectedAt with
-      | some i => s!"reject@{i}"
+      | some i => if r.exhausted then "ok" else s!"reject@{i}"   -- a cut-off state set proves nothing
       | none => if r.final.any (·.st.panicked) then "panic" else "ok"
   | _ => "bad-op"
 
